@@ -11,17 +11,22 @@ from .common import (rules, deriv, attr_calls, cfg_node_of, is_selector_call, st
 def _break_ties(ctx):
     out = []
     for ri in rules(ctx):
-        bt = ri.helpers.get('breakTie')
+        bt = ri.helper(ctx, 'breakTie')
         need(bt is not None, '%s.count has no local breakTie()' % ri.cls.qualname)
         out.append((ri, bt))
     return out
 
 
 def _tied_param(bt):
+    """the parameter holding the tied candidates: the one handed to C.byTieOrder (falls back to the name `tied`)"""
+    for n in bt.own_nodes():
+        if isinstance(n, ast.Call) and isinstance(n.func, ast.Attribute) and n.func.attr == 'byTieOrder' and n.args \
+                and isinstance(n.args[0], ast.Name) and n.args[0].id in bt.params:
+            return n.args[0].id
     for p in bt.params:
         if p == 'tied':
             return p
-    raise AnalysisError('breakTie of %s has no `tied` parameter' % bt.qualname)
+    raise AnalysisError('breakTie of %s has no parameter holding the tied candidates' % bt.qualname)
 
 
 def _tie_numbering(ctx, tie):
@@ -100,7 +105,7 @@ def r15_tie_funnel(ctx):
         for c in f.own_nodes():
             if isinstance(c, ast.Call) and isinstance(c.func, ast.Attribute) and c.func.attr == 'byTieOrder':
                 n_calls += 1
-                ok = f.name == 'breakTie' and f.parent is not None and f.parent.name == 'count'
+                ok = f.parent is not None and f.parent.name == 'count' and any(ri2.helper(ctx, 'breakTie') is f for ri2 in rules(ctx))
                 ok = ok or f.qualname == 'droop.candidates.Candidates.select'
                 ctx.check(ok, R, c, f, 'the tie-break order is consulted only by the rules\' breakTie functions',
                           'call site inside %s' % f.qualname, 'byTieOrder called from %s' % f.qualname, nontrivial=False)
@@ -287,8 +292,8 @@ def r16_extremum_polarity(ctx):
     for ri in rules(ctx):
         f = ri.count
         cfg = ri.cfg
-        for call in [c for c in f.own_nodes() if isinstance(c, ast.Call) and isinstance(c.func, ast.Name) and c.func.id == 'breakTie']:
-            callee = ri.helpers['breakTie']
+        callee = ri.helper(ctx, 'breakTie')
+        for call in [c for c in f.own_nodes() if isinstance(c, ast.Call) and isinstance(c.func, ast.Name) and callee is not None and c.func.id == callee.name]:
             ti = callee.params.index(_tied_param(callee))
             arg = call.args[ti] if ti < len(call.args) else None
             st = ctx.repo.enclosing_stmt(call)
@@ -329,7 +334,7 @@ def r16_extremum_polarity(ctx):
     # Scottish prior-stage search
     sc = [ri for ri in rules(ctx) if ri.short == 'scotland']
     if sc:
-        bt = sc[0].helpers['breakTie']
+        bt = sc[0].helper(ctx, 'breakTie')
         txt = {unparse(s.targets[0]): unparse(s.value) for s in ast.walk(bt.node) if isinstance(s, ast.Assign) and len(s.targets) == 1}
         ok = txt.get('direction') == "0 if reason.find('defeat') >= 0 else -1"
         ctx.check(ok, R, bt.node, bt, 'Scottish tie-break looks at the lowest earlier tally for a defeat and the highest for a surplus',
@@ -363,7 +368,7 @@ def r17_single_from_breaktie(ctx):
     n = 0
     for ri in rules(ctx):
         for f in all_funcs_of(ri.count):
-            if f.name == 'breakTie':
+            if f is ri.helper(ctx, 'breakTie'):
                 continue
             for call in attr_calls(f, ('elect', 'defeat', 'unpend')):
                 recv = call.func.value
@@ -376,7 +381,8 @@ def r17_single_from_breaktie(ctx):
                     continue        # a member of a batch / sweep (R01, R03, R18)
                 n += 1
                 srcs = d.sources(recv, f)
-                ok = bool(srcs) and all('breakTie' in s.via for s in srcs)
+                btn = ri.helper(ctx, 'breakTie').name
+                ok = bool(srcs) and all(btn in s.via for s in srcs)
                 ctx.check(ok, R, call, f, 'a candidate singled out for election, exclusion or transfer is the one breakTie returned',
                           'every derivation of `%s` is returned through breakTie()' % recv.id,
                           '`%s` is picked without breakTie (%s): a tie would be resolved by position, not by the declared order, and not logged'
@@ -404,12 +410,12 @@ def _is_total_pending_surplus(ctx, F, e):
         and ctx.canon(el.right, F) == 'E.quota' and ctx.canon(e.args[1], F) == 'E.V0'
 
 
-def _check_surplus_is_total(ctx, R, ri, F):
+def _check_surplus_is_total(ctx, R, ri, F, sname='surplus'):
     """the `surplus` used by a sure-loser test is all the untransferred surplus: the sum over the pending
     candidates of (tally - quota), or (parameter) an argument that contains E.surplus as an additive term"""
     what = 'the surplus added in a sure-loser test is ALL untransferred surplus (every pending candidate\'s tally minus the quota)'
-    if 'surplus' in F.params:
-        i = F.params.index('surplus')
+    if sname in F.params:
+        i = F.params.index(sname)
         sites = [c for c in F.parent.all_nodes() if isinstance(c, ast.Call) and isinstance(c.func, ast.Name) and c.func.id == F.name]
         ok = bool(sites)
         for c in sites:
@@ -431,30 +437,58 @@ def _check_surplus_is_total(ctx, R, ri, F):
                   '%s() is not given E.surplus' % F.name)
         return
     defs = [n for n in F.own_nodes() if isinstance(n, ast.Assign) and len(n.targets) == 1 and isinstance(n.targets[0], ast.Name)
-            and n.targets[0].id == 'surplus']
+            and n.targets[0].id == sname]
     ok = len(defs) == 1 and _is_total_pending_surplus(ctx, F, defs[0].value)
     ctx.check(ok, R, defs[0] if defs else F.node, F, what, 'surplus = sum([(c.vote - E.quota) for c in C.pending()], V0)',
               '`surplus` in %s() is `%s`: not the sum of every pending surplus, so candidates that can still catch up are treated as sure losers'
               % (F.name, unparse(defs[0].value) if defs else None))
 
 
+def _batch_producers(ctx, ri):
+    """local helpers that select a batch of hopefuls for exclusion: a capped loop (one containing `break`) over the hopefuls
+    sorted by tally, returning candidates (batchDefeat / findCertainLosers by role)"""
+    out = []
+    for h in ri.helpers.values():
+        if not any(isinstance(n, ast.For) and any(isinstance(x, ast.Break) for x in ast.walk(n)) for n in h.own_nodes()):
+            continue
+        rets = [r for r in h.own_nodes() if isinstance(r, ast.Return) and r.value is not None]
+        if rets and all(deriv(ctx).states(r.value, h) == frozenset(['hopeful']) or
+                        (isinstance(r.value, (ast.List,)) and not r.value.elts) for r in rets):
+            if any(deriv(ctx).states(r.value, h) == frozenset(['hopeful']) for r in rets):
+                out.append(h)
+    return out
+
+
 def r18_sure_loser_strict(ctx):
     R = 'R18'
     n = 0
     for ri in rules(ctx):
-        for name in ('batchDefeat', 'findCertainLosers'):
-            F = ri.helpers.get(name)
-            if F is None:
-                continue
+        for F in _batch_producers(ctx, ri):
+            name = F.name
             # comparisons between (<sum of votes> + surplus) and <next>.vote inside the capped loop (the loop with a Break)
             loops = [l for l in F.own_nodes() if isinstance(l, ast.For) and any(isinstance(x, ast.Break) for x in ast.walk(l))]
             need(loops, 'R18: %s has no capped loop' % F.qualname)
             L = loops[0]
             found = 0
+            surplus_names = set()
             for c in [x for x in ast.walk(L) if isinstance(x, ast.Compare) and len(x.ops) == 1]:
                 l, r, op = c.left, c.comparators[0], c.ops[0]
-                if not (isinstance(l, ast.BinOp) and isinstance(l.op, ast.Add) and any(isinstance(x, ast.Name) and x.id == 'surplus' for x in ast.walk(l))):
+                if not (isinstance(l, ast.BinOp) and isinstance(l.op, ast.Add) and isinstance(l.left, ast.Name) and isinstance(l.right, ast.Name)):
                     continue
+                # one operand accumulates the batch's votes inside this loop (+=), the other is the surplus
+                def _acc(x):
+                    for a in ast.walk(L):
+                        if isinstance(a, ast.AugAssign) and isinstance(a.target, ast.Name) and a.target.id == x.id and 'vote' in unparse(a.value):
+                            return True
+                        if isinstance(a, ast.Assign) and len(a.targets) == 1 and isinstance(a.targets[0], ast.Name) and a.targets[0].id == x.id \
+                                and 'vote' in unparse(a.value):
+                            return True
+                    return False
+                accs = [x for x in (l.left, l.right) if _acc(x)]
+                others = [x for x in (l.left, l.right) if x not in accs]
+                if len(accs) != 1 or len(others) != 1:
+                    continue
+                surplus_names.add(others[0].id)
                 if not (isinstance(r, ast.Attribute) and r.attr == 'vote'):
                     continue
                 par = c.parent
@@ -473,7 +507,8 @@ def r18_sure_loser_strict(ctx):
                     ok, how = False, 'sure-loser test `%s` is not a strict inequality: a batch whose votes plus surplus EQUAL the next ' \
                                      'tally is not a set of sure losers' % unparse(c)
                 ctx.check(ok, R, c, F, 'a batch is excluded only if its votes plus all untransferred surplus are strictly below the next tally', how, how)
-            _check_surplus_is_total(ctx, R, ri, F)
+            for sn in sorted(surplus_names):
+                _check_surplus_is_total(ctx, R, ri, F, sn)
             ctx.check(found >= 1, R, L, F, '%s compares the batch total plus surplus with the next candidate\'s tally' % name,
                       '%d comparison(s)' % found, 'no comparison of (votes + surplus) with the next tally found in %s' % name, nontrivial=False)
     # inline batches (no producer): only candidates without any vote, and only when no surplus is pending
